@@ -75,10 +75,10 @@ PROPS = {
         ],
     ),
     'C10': dict(
-        verus=['merged', 'vector_tile_merge', 'vector_tile_tables', 'vector_tile_layer_enc'],
+        verus=['merged', 'merge_tiles', 'vector_tile_merge', 'vector_tile_tables', 'vector_tile_layer_enc'],
         kani=[],
         not_decided=[
-            'merge_tiles: the HashMap-by-layer-name loop (HashMap::get_mut is outside Verus) - which layers are merged and in which order the layers appear',
+            'the order in which the merged layers appear in the output tile (HashMap iteration order: unspecified by the code itself)',
             'get_tile_stream of the merged operation (per-cell closure with Vec<Vec<Blob>> slots and an enumerate/filter_map chain)',
             'VectorTile from_blob(to_blob(t)) = t (to_blob of tile, layer and feature are proved against the MVT wire layout, the decoders are proved total: the composition is not)',
             'construction of the nested source pipelines (join_all, havoc under R9)',
